@@ -498,6 +498,10 @@ impl FixtureDatabase {
                     dependencies.push(arg_name.to_string());
                 }
             }
+            // `*args` / `**kwargs` are parameters too: a use of their name is never an undeclared fixture
+            for extra in args.vararg.iter().chain(args.kwarg.iter()) {
+                declared_params.insert(extra.arg.to_string());
+            }
 
             // Calculate end line from the function's range
             let end_line = self.get_line_from_offset(range.end().to_usize(), line_index);
@@ -599,6 +603,9 @@ impl FixtureDatabase {
                         end_char,
                     );
                 }
+            }
+            for extra in args.vararg.iter().chain(args.kwarg.iter()) {
+                declared_params.insert(extra.arg.to_string());
             }
 
             let function_line = self.get_line_from_offset(range.start().to_usize(), line_index);
